@@ -233,7 +233,7 @@ def judge(load, ranges, content, n, rpc, indexers):
     else:
         want_rows = [range(n)[i] for i in row_ix]
     want_bytes = [content[ranges[r][0]:ranges[r][1]] for r in want_rows]
-    got = load.rows
+    got = load.rows if load.rows is not None else []
     ok = got == want_bytes
     detail = ""
     if not ok:
@@ -276,3 +276,43 @@ def judge(load, ranges, content, n, rpc, indexers):
     out.append(("confined", not bad, "every request lies inside the byte span of one touched chunk and inside the file", bad[0] if bad else ""))
     out.append(("one-file", all(o[0] == "IMG-X" for o in load.opens), "only the image file is opened during the load", f"files opened during the load: {load.opens} - the load touches something else than the image file"))
     return out
+
+
+def run_wrapper_load(repo, n, width, rpc, key, gap=0, type_code="IU2"):
+    """ONE load as xarray issues it: LazilyIndexedWrapper(array, lock)._raw_indexing_method(key), with the wrapper built by its own
+    __init__ around the model Array.  However many times the wrapper indexes the array, all requests are recorded into one
+    Load.  -> (Load, ranges, content)"""
+    content, ranges = image_bytes(n, width, gap)
+    cur = {"load": Load()}
+    load = _Proxy(cur)
+    ld = cur["load"]
+    built = _build(repo, load, content, ranges, n, width, rpc, type_code)
+    if isinstance(built, str):
+        ld.outcome = built
+        return ld, ranges, content
+    I, arr = built
+    ld.records_per_chunk = _plain(arr.fields.get("records_per_chunk")) if isinstance(arr.fields.get("records_per_chunk"), Const) else None
+    xm = repo.module("ceos_alos2.xarray")
+    xsc = I.module_scope(xm)
+    result = lambda I_, a, kw: Obj("Result", OrderedDict())
+    xsc.vars["np"] = Obj("numpy", OrderedDict(dtype=Fn("py", impl=lambda I_, a, kw: a[0] if a else Const(None), name="np.dtype"), concatenate=Fn("py", impl=result, name="np.concatenate"),
+                                               vstack=Fn("py", impl=result, name="np.vstack"), ascontiguousarray=Fn("py", impl=lambda I_, a, kw: a[0], name="np.ascontiguousarray"),
+                                               asarray=Fn("py", impl=lambda I_, a, kw: a[0], name="np.asarray")))
+    lock = Obj("Lock", OrderedDict())
+    lock.fields["__enter__"] = Fn("py", impl=lambda I_, a, k: lock, name="__enter__")
+    lock.fields["__exit__"] = Fn("py", impl=lambda I_, a, k: Const(None), name="__exit__")
+    lock.fields["acquire"] = Fn("py", impl=lambda I_, a, k: Const(True), name="acquire")
+    lock.fields["release"] = Fn("py", impl=lambda I_, a, k: Const(None), name="release")
+    try:
+        w = I.call(I.lookup("LazilyIndexedWrapper", xsc), [arr, lock], {})
+        I.call(I.getattr(w, "_raw_indexing_method"), [to_shape(tuple(key))], {})
+        ld.outcome = "returned"
+    except _Raise as e:
+        ld.outcome = f"raised: {e.what}"
+    except NonTermination as e:
+        ld.outcome = f"nonterminating: {e}"
+    except RecursionError:
+        ld.outcome = "undecided: recursion limit"
+    except ShapeError as e:
+        ld.outcome = f"undecided: {e}"
+    return ld, ranges, content
